@@ -4,7 +4,7 @@ quick check of the properties expected to catch it (or those given with -p). Pri
 
 usage: tools/sens.py [-p C05,C10] [--seeded] [--all-props] [name ...]
 """
-import json, os, subprocess, sys, shutil, time, glob
+import json, os, re, subprocess, sys, shutil, time, glob
 
 ROOT = os.path.dirname(os.path.dirname(os.path.abspath(__file__)))
 ENV = dict(os.environ, GOFLAGS="-mod=mod", GOPROXY="off", GOSUMDB="off", GOTOOLCHAIN="local")
@@ -52,6 +52,9 @@ def main():
                 t0 = time.time()
                 p = subprocess.run([os.path.join(ROOT, "check"), "quick", pid], env=env, stdout=subprocess.PIPE, stderr=subprocess.STDOUT, text=True)
                 verdict = {0: "MISSED", 1: "caught", 2: "inconclusive"}.get(p.returncode, "rc=%d" % p.returncode)
+                if p.returncode == 1 and "VIOLATION property=" not in p.stdout:
+                    verdict = "driver-error"  # an exception in the driver is not a catch
+                    print(p.stdout[-1500:])
                 results.setdefault(name, {})[pid] = verdict
                 print("%-45s %-4s %-12s %.0fs" % (name, pid, verdict, time.time() - t0), flush=True)
                 if verdict == "inconclusive":
@@ -59,7 +62,7 @@ def main():
         finally:
             subprocess.run(["git", "-C", "/repo", "worktree", "remove", "--force", wt], stdout=subprocess.DEVNULL, stderr=subprocess.DEVNULL)
             shutil.rmtree(wt, ignore_errors=True)
-            shutil.rmtree(os.path.join(ROOT, ".run-alt"), ignore_errors=True)
+            shutil.rmtree(os.path.join(ROOT, ".run-alt", re.sub(r"\W", "_", wt)), ignore_errors=True)
     subprocess.run(["git", "-C", "/repo", "worktree", "prune"])
     out = os.path.join(ROOT, "mutants", "SEEDED_RESULTS.json" if seeded else "RESULTS.json")
     old = {}
